@@ -112,6 +112,25 @@ theorem ascii_sync_encOk (e : Enc) (r : Rules) (hs : AsciiSync e)
     (hp : ∀ x, e.valid x = false → e.valid (e.prefilter x) = true) : EncOk e r :=
   asciiSync_encOk e r hs hp
 
+/-- **UTF-8** (`rules::encoding("UTF-8")`): `utf8Enc repl` is the model of `encoding::valid_utf8` /
+`validate_or_filter_utf8` that property C14 proves exact (`Cppcms.C14.Props.validate_iff_wellformed`,
+`filter_yields_valid`).  Clause 1 holds for it with no hypothesis beyond the replacement-character precondition
+`ReplOk repl` (NUL = delete, or a byte that is itself valid HTML-safe UTF-8). -/
+theorem filter_validates_utf8 (r : Rules) (repl : UInt8) (m : Method) (x : Bytes) (hr : RulesOk r)
+    (hc : r.xhtml = false → HtmlCaseOk r) (hrepl : Cppcms.C14.Spec.ReplOk repl) :
+    validateE (some (utf8Enc repl)) r (filterE (some (utf8Enc repl)) r m x) = true :=
+  filterE_validates_all r hr hc (utf8Enc repl) (utf8Enc_ok repl r hrepl) m x
+
+/-- clause 4 for UTF-8, in terms of RFC 3629: what `validate` accepts under a declared UTF-8 encoding is a concatenation
+of RFC 3629 encodings of HTML-safe code points (C14's `WellFormed true`) -/
+theorem validate_implies_utf8_wellformed (r : Rules) (repl : UInt8) (x : Bytes)
+    (h : validateE (some (utf8Enc repl)) r x = true) : ∃ n, Cppcms.C14.Spec.WellFormed true x n :=
+  (utf8_valid_iff x).1 (validateE_encoding (utf8Enc repl) r x h)
+
+example : Cppcms.C14.Spec.ReplOk 0 := Or.inl rfl
+/-- non-vacuity: `a é <b` (invalid markup, valid UTF-8) and `a \xff` (invalid UTF-8) -/
+example : (utf8Enc 0).valid [97, 0xC3, 0xA9] = true ∧ (utf8Enc 0).valid [97, 0xFF] = false := by decide +kernel
+
 /-! ### the URI validator (`rules::uri_validator`, `relative_uri_validator`; model in `Uri.lean`) -/
 
 /-- "every URI scheme is one the rules allow": for the model of `uri_parser`/`uri_validator_functor`, with the scheme
